@@ -30,6 +30,12 @@ def run(tier):
                  ("c06_d1_pairs3", consts(1, 4, 4, True, PAIRS + ["write", "assign_copy", "ctor_copy"]), exe_int)]
     for name, c, exe in plan:
         arrays.run_config(rep, "C06", name, c, exe, wd, len(c["Slots"]))
+    # beyond the exhaustive bound: random histories with extents up to 6 (old and new extents that are not multiples of each
+    # other, common parts of 4 or 5 rows), TLC -simulate seeded by VERIF_SEED
+    n_sim = 4 if tier == "quick" else 16
+    for name, c, exe in (("c06_large_random_d2", consts(2, 6, 4, True, PAIRS + ["write", "assign_copy"], slots=1), exe_int),
+                         ("c06_large_random_d1_str", consts(1, 7, 5, False, PAIRS + ["write"], slots=1), exe_str)):
+        arrays.run_config(rep, "C06", name, c, exe, wd, len(c["Slots"]), sim={"simulate": n_sim, "depth": c["MaxDepth"] + 1, "workers": 8})
     missing = [o for o in arrays.C06_OPS if rep.cov.get("per_last_op", {}).get(o, 0) == 0]
     if missing:
         raise vlib.Broken("operations never exercised: %s" % missing)
